@@ -166,6 +166,10 @@ def stepLine (_ : Unit) (line : String) : Unit × String :=
               let acts ← getRats kv "actsl"
               let spec : DurPar ← match getS kv "durpar" with
                 | some "plain" => (getRat kv "dval").map DurPar.plain
+                | some "timepar" => do
+                    let D ← getRat kv "dval"
+                    let dt ← getRat kv "dt"
+                    if dt == 0 then none else pure (DurPar.plain (timeparValue D dt))
                 | some "drawn" => (getRats kv "draws").map DurPar.drawn
                 | _ => none
               let c := choiceFor s a b [] acts
